@@ -553,7 +553,9 @@ func (s *storeInstallGoal) validateAndPrune(installedSnaps map[string]*SnapState
 			sn.RevOpts.Channel = "stable"
 		}
 
-		sn.RevOpts.resolveChannel(sn.InstanceName, "stable", opts.DeviceCtx)
+		if err := sn.RevOpts.resolveChannel(sn.InstanceName, "stable", opts.DeviceCtx); err != nil {
+			return err
+		}
 
 		uninstalled = append(uninstalled, sn)
 	}
